@@ -270,26 +270,39 @@ pub(crate) fn fmt_meta(m: &MetaOut) -> String {
 	s
 }
 
-/// cr xFILE MODE TARGET MAXCALLS [FAILAT]
+/// cr xFILE MODE TARGET MAXCALLS [FAILAT] [(alloc N)]
 /// MODE ::= slice | (chunks N...) ; reads until eof has been seen twice or MAXCALLS
-/// -> (ok xSCHEMAJSON (meta (xK xV)...) ITEM...) | (open-err KIND xMSG)
+/// (alloc N): the ReaderRead handed to the container reader gets max_alloc_size = N (chunks mode; the slice reader has no
+/// cap) and the allocations made inside the `deserialize_seed_next` calls are counted: a last element (allocs LARGEST)
+/// -> (ok xSCHEMAJSON (meta (xK xV)...) ITEM... [(allocs LARGEST)]) | (open-err KIND xMSG)
 pub fn cmd_cr(a: &[Sx]) -> Result<String, String> {
 	let file = a[0].bytes()?;
 	let (mh, ma) = a[1].head()?;
 	let target = DTarget::from_sx(&a[2])?;
 	let max_calls: usize = a[3].int()?;
-	let fail_at: Option<usize> = match a.get(4) {
-		Some(x) => Some(x.int()?),
-		None => None,
-	};
+	let mut fail_at: Option<usize> = None;
+	let mut max_alloc: Option<usize> = None;
+	for x in a.iter().skip(4) {
+		if let Ok(("alloc", aa)) = x.head() {
+			max_alloc = Some(aa[0].int()?);
+		} else {
+			fail_at = Some(x.int()?);
+		}
+	}
 	let mut out = String::new();
 	macro_rules! drive {
 		($reader:expr, $meta:expr) => {{
 			let mut reader = $reader;
 			out.push_str(&format!("(ok {} {}", esc(reader.schema().json()), fmt_meta(&$meta)));
 			let mut eofs = 0;
+			if max_alloc.is_some() {
+				crate::ALLOCS.with(|c| c.set((0, 0)));
+			}
 			for _ in 0..max_calls {
-				let (s, eof) = fmt_item(reader.deserialize_seed_next(&target));
+				crate::COUNTING.with(|c| c.set(max_alloc.is_some()));
+				let item = reader.deserialize_seed_next(&target);
+				crate::COUNTING.with(|c| c.set(false));
+				let (s, eof) = fmt_item(item);
 				out.push(' ');
 				out.push_str(&s);
 				if eof {
@@ -298,6 +311,9 @@ pub fn cmd_cr(a: &[Sx]) -> Result<String, String> {
 						break;
 					}
 				}
+			}
+			if max_alloc.is_some() {
+				out.push_str(&format!(" (allocs {})", crate::ALLOCS.with(|c| c.get()).1));
 			}
 			out.push(')');
 		}};
@@ -315,7 +331,11 @@ pub fn cmd_cr(a: &[Sx]) -> Result<String, String> {
 			let plan = ma.iter().map(|s| s.int::<usize>()).collect::<Result<Vec<_>, _>>()?;
 			let mut cr = ChunkedReader::new(file.clone(), plan);
 			cr.fail_at_call = fail_at;
-			match Reader::new_and_metadata::<MetaOut>(serde_avro_fast::de::read::ReaderRead::new(cr)) {
+			let mut rr = serde_avro_fast::de::read::ReaderRead::new(cr);
+			if let Some(m) = max_alloc {
+				rr.max_alloc_size = m;
+			}
+			match Reader::new_and_metadata::<MetaOut>(rr) {
 				Err(e) => out = open_err(e),
 				Ok((r, m)) => drive!(r, m),
 			}
